@@ -249,4 +249,24 @@ func runC13(c *Ctx) {
 	// limit-size output equals the unguarded functions' output
 	e1, _ := base32.EncodeToStringSafe(big[:base32.MAX_ENCODE_SIZE])
 	c.Check("size_limit_exact", e1 == base32.EncodeToString(big[:base32.MAX_ENCODE_SIZE]), "EncodeToStringSafe at MAX", nil, "", "differs from EncodeToString")
+	// the limits fit together: what the guarded encoder produces at its own limit (and one byte
+	// below) is within the guarded decoders' limit and decodes back; and the limits are the
+	// documented numbers (10 MiB of data; its encoded length), whatever the constants say
+	c.Check("size_limit_exact", base32.MAX_ENCODE_SIZE == 10*1024*1024 && base64.MAX_ENCODE_SIZE == 10*1024*1024 &&
+		base32.MAX_DECODE_SIZE == (10*1024*1024*8+4)/5 && base64.MAX_DECODE_SIZE == ((10*1024*1024+2)/3)*4, "documented limits", nil, "",
+		fmt.Sprintf("base32 %d/%d base64 %d/%d", base32.MAX_ENCODE_SIZE, base32.MAX_DECODE_SIZE, base64.MAX_ENCODE_SIZE, base64.MAX_DECODE_SIZE))
+	for _, n := range []int{base32.MAX_ENCODE_SIZE, base32.MAX_ENCODE_SIZE - 1} {
+		enc, err := base32.EncodeToStringSafe(big[:n])
+		dec, derr := base32.DecodeStringSafe(enc)
+		c.Check("size_limit_exact", err == nil && derr == nil && len(dec) == n, "base32 Safe round trip at the limit", [][]byte{i64(int64(n))}, "",
+			fmt.Sprintf("%d bytes: encode err=%v, decode err=%v", n, err, derr))
+		np := strings.TrimRight(enc, "=")
+		dec2, derr2 := base32.DecodeStringSafeNoPadding(np)
+		c.Check("size_limit_exact", derr2 == nil && len(dec2) == n, "base32 SafeNoPadding round trip at the limit", [][]byte{i64(int64(n))}, "",
+			fmt.Sprintf("%d bytes: decode err=%v", n, derr2))
+		enc64, err64 := base64.EncodeToStringSafe(big[:n])
+		dec64, derr64 := base64.DecodeStringSafe(enc64)
+		c.Check("size_limit_exact", err64 == nil && derr64 == nil && len(dec64) == n, "base64 Safe round trip at the limit", [][]byte{i64(int64(n))}, "",
+			fmt.Sprintf("%d bytes: encode err=%v, decode err=%v", n, err64, derr64))
+	}
 }
